@@ -699,24 +699,34 @@ class C03(core.PropertyCheck):
 
     # ---- implementation ---------------------------------------------------------------
     def run_impl(self, case):
-        """a parser that does not return within 5 s counts as a crash (`Timeout`); after three of them in
+        """a parser that does not return within 20 s of CPU time counts as a crash (`Timeout`); after three of them in
         one worker process the remaining cases of that worker are skipped (`TimeoutSkipped`, not judged)"""
         global _TIMEOUTS
         if _TIMEOUTS >= 3:
             return {"exc": "TimeoutSkipped", "msg": "skipped after repeated timeouts"}
 
+        # CPU time, not wall-clock time: a loaded machine (or a cold import in a fresh worker) must not look like a hang;
+        # and a first timeout is retried once with twice the budget, so only a reproducible one is reported.
         def on_alarm(signum, frame):
-            raise TimeoutError("parser did not return within 5 s")
-        old = signal.signal(signal.SIGALRM, on_alarm)
-        signal.alarm(5)
+            raise TimeoutError("parser did not return within 10 s and then 20 s of CPU time (120 s wall-clock backstop)")
+        old_prof = signal.signal(signal.SIGPROF, on_alarm)
+        old_alrm = signal.signal(signal.SIGALRM, on_alarm)
         try:
-            return self.run_impl_inner(case)
-        except TimeoutError as e:
+            for budget in (10, 20):
+                signal.setitimer(signal.ITIMER_PROF, budget)
+                signal.alarm(120)
+                try:
+                    return self.run_impl_inner(case)
+                except TimeoutError as e:
+                    err = e
+                finally:
+                    signal.setitimer(signal.ITIMER_PROF, 0)
+                    signal.alarm(0)
             _TIMEOUTS += 1
-            return {"exc": "Timeout", "msg": str(e)}
+            return {"exc": "Timeout", "msg": str(err)}
         finally:
-            signal.alarm(0)
-            signal.signal(signal.SIGALRM, old)
+            signal.signal(signal.SIGPROF, old_prof)
+            signal.signal(signal.SIGALRM, old_alrm)
 
     def run_impl_inner(self, case):
         k = case["kind"]
